@@ -14,7 +14,8 @@
 // after parts, 403 / token expiry, 400, first-range-only, stalls with cancelled contexts,
 // cache faults: Get miss after commit, reader error after k bytes, Add/Commit errors).
 // Phase kinds: "walk" (single goroutine fetches chunks in adversarial orders: regionSet
-// hammer), "herd" (all goroutines ask for the identical missing chunk set at once, first
+// hammer), "solo" (one client under one fault family, FetchedSize checked against the
+// cache after every operation), "herd" (all goroutines ask for the identical missing chunk set at once, first
 // request stalled until everybody entered: shared single-flight, cache copy, retry),
 // "mixed" (1-32 goroutines, overlapping ReadAt / Cache / Check / Refresh / token expiry on a
 // few hot regions, some with cancellable contexts), "verify" (clean full read).
@@ -91,7 +92,7 @@ func now() int64 { return int64(time.Since(t0)) }
 func main() {
 	vf.Main("C06", "exploration",
 		"each case is one scenario drawn from the seed: blob size (0, 1, c-1, c, c+1, k*c+-1, ...), chunk size 1..64KiB, prefetch chunk size <,=,> chunk, cache kind, transport (plain | retryablehttp), "+
-			"registry kind (direct | redirect to CDN with expiring tokens | refuses multi-range), 1-32 goroutines, 2-5 hot regions and 6-9 phases (walk | herd | mixed | verify, clean or one fault family). "+
+			"registry kind (direct | redirect to CDN with expiring tokens | refuses multi-range), 1-32 goroutines, 2-5 hot regions and 7-11 phases (walk | solo | herd | mixed | verify, clean or one fault family). "+
 			"non-trivial = a scenario in which at least one byte-checked ReadAt of >=1 byte succeeded in a phase that fetched from the registry (2xx range GET logged) AND at least two of "+
 			"{multi-range request seen, non-plain personality answered (squash/whole/multipart-always/permuted), a read succeeded in a phase with delivered faults, herd phase answered with fewer GETs than readers (shared flight), "+
 			"cache fault injected, >=2 goroutines} hold; distinct by the scenario descriptor",
@@ -141,7 +142,7 @@ func body(r *vf.Run) {
 				r.Inconclusive(name + " child watchdog")
 			} else if !ex.Partial {
 				// the child died: a crash of the code under test (no hostile input is used here)
-				key := "crash:" + name + "-child:" + crashSite(ex.Tail)
+				key := "crash:" + name + "-child:" + crashSite(ex.Output, ex.Tail)
 				r.Violate(key, "the "+name+" child running C06 scenarios died: "+tailLines(ex.Tail, 30), map[string]any{"from": from, "to": to, "tail": ex.Tail})
 			}
 			r.Logf("%s child [%d,%d) done", name, from, to)
@@ -157,14 +158,34 @@ func body(r *vf.Run) {
 	r.Assume("phase boundaries are quiescent for fs/remote (all client goroutines joined); asynchronous directory-cache file commits may still run and are not part of the judged state")
 }
 
-var reSite = regexp.MustCompile(`(?m)^(panic: .*|fatal error: .*)$`)
+var reSite = regexp.MustCompile(`^(panic: |fatal error: |SIGSEGV|unexpected fault)`)
 
-func crashSite(tail string) string {
-	m := reSite.FindString(tail)
-	if m == "" {
-		return "unknown"
+// crashSite extracts a stable identity of a child's death from its output file: the first
+// panic / fatal error line (numbers stripped) and the innermost stargz-snapshotter frame
+// below it.
+func crashSite(outputPath, tail string) string {
+	b, err := os.ReadFile(outputPath)
+	if err != nil {
+		b = []byte(tail)
 	}
-	return normErr(m)
+	lines := strings.Split(string(b), "\n")
+	for i, l := range lines {
+		if !reSite.MatchString(l) {
+			continue
+		}
+		site := normErr(l)
+		for _, f := range lines[i+1:] {
+			if k := strings.Index(f, "github.com/containerd/stargz-snapshotter/"); k >= 0 && !strings.HasPrefix(f, "\t") {
+				fn := f[k+len("github.com/containerd/stargz-snapshotter/"):]
+				if j := strings.LastIndex(fn, "("); j > 0 && strings.HasSuffix(fn, ")") {
+					fn = fn[:j]
+				}
+				return site + "@" + fn
+			}
+		}
+		return site
+	}
+	return "unknown"
 }
 
 func tailLines(s string, n int) string {
@@ -391,6 +412,8 @@ func genScenario(r *vf.Run, stage, idx int) *scenario {
 				p.Modes = []int{pHonest, pPermuted, pMultipartAlways}
 			}
 			p.Evict = "none"
+		case "solo":
+			p.OpsPerG = rng.Range(16, 32)
 		case "herd":
 			p.Evict = rng.PickS("all", "all", "some")
 		case "verify":
@@ -401,7 +424,7 @@ func genScenario(r *vf.Run, stage, idx int) *scenario {
 	}
 	fam := func() string { return faultFamilies[rng.Intn(len(faultFamilies))] }
 	addPhase("walk", "")
-	np := rng.Range(4, 7)
+	np := rng.Range(3, 6)
 	for i := 0; i < np; i++ {
 		kind := rng.PickS("herd", "herd", "mixed", "mixed", "mixed", "walk")
 		family := ""
@@ -412,6 +435,13 @@ func genScenario(r *vf.Run, stage, idx int) *scenario {
 			}
 		}
 		addPhase(kind, family)
+	}
+	// one single-client faulty phase: FetchedSize is compared with the cache after every
+	// operation, so a chunk that is counted although its commit failed is seen before a
+	// later successful fetch of the same chunk hides it
+	addPhase("solo", rng.PickS("truncate", "truncate", "cache-commiterr", "cache-commiterr", "cache-adderr", "neterr", "status", "cancel", "403", "mix"))
+	if rng.Bool() {
+		addPhase(rng.PickS("mixed", "herd"), "")
 	}
 	addPhase("verify", "")
 	return s
@@ -1414,7 +1444,7 @@ func (w *world) runPhase(pi int) {
 	w.reg.ResetLog()
 
 	G := sc.G
-	if ph.Kind == "walk" || ph.Kind == "verify" {
+	if ph.Kind == "walk" || ph.Kind == "verify" || ph.Kind == "solo" {
 		G = 1
 	}
 	// per-goroutine scripts
@@ -1486,13 +1516,18 @@ func (w *world) runPhase(pi int) {
 				}
 				res := w.runOp(sp, obs, quiet)
 				results[g] = append(results[g], res)
-				if G == 1 && (ph.Kind == "walk") && res.err == nil {
-					// single goroutine: every step is a quiescent point
+				if G == 1 {
+					// a single client: the blob is quiescent after every operation, failed or
+					// not (ReadAt is synchronous, Cache waits for its errgroup)
 					fsz := w.blob.FetchedSize()
 					cb, _ := w.rc.CommittedBytes()
 					if fsz != cb {
-						results[g][len(results[g])-1].fsBad = "quiescent-mismatch"
-						results[g][len(results[g])-1].fsDetail = fmt.Sprintf("walk %s step %d (%s off=%d n=%d): FetchedSize=%d but %d distinct bytes were committed to the cache", ph.WalkKind, i, opName[sp.Kind], sp.Off, sp.N, fsz, cb)
+						dirn := "over"
+						if fsz < cb {
+							dirn = "under"
+						}
+						results[g][len(results[g])-1].fsBad = "quiescent-mismatch-" + dirn
+						results[g][len(results[g])-1].fsDetail = fmt.Sprintf("%s %s step %d (%s off=%d n=%d -> n=%d err=%v): FetchedSize=%d but the distinct keys ever committed to the cache hold %d bytes", ph.Kind, ph.WalkKind, i, opName[sp.Kind], sp.Off, sp.N, res.n, res.err, fsz, cb)
 					}
 				}
 			}
